@@ -88,7 +88,7 @@ class SMUserList(UserList, ABC):
         if not check:
             # the value is not tested, but an array of another shape is not a
             # value of this class at all (it may be another argument form)
-            return x if x.shape == self.shape else None
+            return x if isinstance(x, np.ndarray) and x.shape == self.shape else None
         if self.isvalid(x, check=check):
             return x
         else:
